@@ -267,7 +267,9 @@ def _odp_shape(k, s, c):
                 "</table:table></draw:frame>")
     cls = {"title": ' presentation:class="title"', "body": ' presentation:class="outline"', "text": ""}[kind]
     paras = [s[1]] if kind == "title" else s[1]
-    return (f'<draw:frame{cls} {y}><draw:text-box>' + "".join(f"<text:p>{_inl(p, c)}</text:p>" for p in paras)
+    # paragraph styles as presentation programs name them (the extractor classifies title / body paragraphs by style name)
+    pst = {"title": ' text:style-name="TitleText"', "body": ' text:style-name="BodyText"', "text": ""}[kind]
+    return (f'<draw:frame{cls} {y}><draw:text-box>' + "".join(f"<text:p{pst}>{_inl(p, c)}</text:p>" for p in paras)
             + "</draw:text-box></draw:frame>")
 
 
@@ -276,7 +278,10 @@ def write_odp(deck: dict, kind="odp") -> bytes:
     extra = {}
     pages = ""
     for n, s in enumerate(deck["slides"], start=1):
-        shapes = "".join(_odp_shape(k, sh, c) for k, sh in enumerate(s.get("shapes", [])))
+        parts = [_odp_shape(k, sh, c) for k, sh in enumerate(s.get("shapes", []))]
+        # reading order is the visual (top-to-bottom) order given by svg:y; on even slides of a presentation the XML
+        # order is reversed, so that an extractor relying on XML order would be caught (a drawing keeps XML order)
+        shapes = "".join(reversed(parts) if (kind == "odp" and n % 2 == 0) else parts)
         shapes += _images_xml(s.get("images"), extra, anchor="page")
         notes = ""
         if s.get("notes"):
